@@ -15,6 +15,12 @@ matrix `compute_unitary()` reports, sent as dyadic rationals):
 * kind "dm"  — `DensityMatrix.from_svd` → `evolve_density_matrix` (whole matrix), `probs_density_matrix`,
                against the density-matrix route and the mixture route of the model (`dm_eq_svd`).
 
+* states mixing annotated and un-annotated photons (`+mixed` plans): the same kinds "bs"/"sv"/"svd" with the native
+               rule of `separate_state` modelled (`native`, Model/C03Mixed.lean); groups and annotation map of the real
+               objects compared for every Fock-state case;
+* kind "keys" — sequences of `svd[ψ] = v`, `svd[ψ] += w`, `svd.add(ψ, w)`, `svd[ψ]` on a real SVDistribution with keys in
+               several scalings against Model/C03Keys.lean, then `probs_svd` of the mixture so built.
+
 Direct oracles on the implementation, independent of Lean: (i) a numpy evaluation of the specification
 (permanents, products over tag groups, coherent sums, mixtures); (ii) the property itself on the real code:
 evolve(∑ c_k s_k) = ∑ c_k evolve(s_k), probs(tagged) = convolution of probs(group), probs_svd(mixture) =
@@ -2185,7 +2191,10 @@ def run(chk: core.Check):
                 "judged against the PROVED bound of Props/C03 section 10 evaluated exactly by the driver (errNormAt per outcome, "
                 "2·errTot/mass in total, hypotheses of the theorem checked per case); every mixture is also run through "
                 "Simulator.evolve_svd (each vector of the result = an evolved member amplitude by amplitude, weights, perf, the "
-                "measured mixture); Simulator.evolve is judged with the model's bound on the native cut (lossAt)")
+                "measured mixture); Simulator.evolve is judged with the model's bound on the native cut (lossAt); states mixing "
+                "annotated and un-annotated photons (1-3 annotations, 35% un-annotated photons) through the kinds bs / sv / svd "
+                "(precision 0 and default), mixed output states for prob_amplitude; kind keys: sequences of 3-8 set / += / add / "
+                "read operations on a real SVDistribution with 2-3 components in six scalings")
     chk.assumptions = [
         "the circuit's matrix is the one compute_unitary() reports (C01/C14); the backends return the boson-sampling "
         "amplitudes of one group of indistinguishable photons (C02)",
